@@ -114,6 +114,77 @@ class Result:
                 raise MachineryError('dump has %d states, TLC reports %d' % (len(g.states), r.distinct))
         return r, g
 
+    def simulate_py(self, module, name, pyconsts, num, depth, spec='SSpec', invariants=(), properties=(), timeout=600):
+        """Random behaviours of a specification too large to dump (`tlc -simulate file=...,num=N -depth D`, invariants
+        and action properties checked along the way).  `module` keeps the label of the last action, parameters
+        included, in a variable `act` (TLC's behaviour files name the action only).  Returns (graph, paths): the union
+        of the behaviours as a graph and each behaviour as an explicit path for replay.run_paths."""
+        from . import replay as _rp
+        if _rp.REPLAY is not None and _rp.REPLAY.get('done'):
+            raise ReplayDone()
+        gen = '%s_%s' % (module, name)
+        defs, consts, ov = [], {}, {}
+        for k, v in pyconsts.items():
+            if k.startswith('_'):
+                continue
+            if isinstance(v, (bool, int)):
+                consts[k] = tla.to_tla(v)
+            else:
+                defs.append('K_%s == %s' % (k, tla.to_tla(v)))
+                ov[k] = 'K_' + k
+        with open(os.path.join(self.specdir, gen + '.tla'), 'w') as f:
+            f.write('---- MODULE %s ----\nEXTENDS %s\n%s\n====\n' % (gen, module, '\n'.join(defs)))
+        cfg = os.path.join(self.scratch, '%s.cfg' % gen)
+        tlc.write_cfg(cfg, spec=spec, constants=consts, invariants=invariants, properties=properties, overrides=ov)
+        out = os.path.join(self.scratch, 'sim_' + gen)
+        shutil.rmtree(out, ignore_errors=True)
+        os.makedirs(out)
+        r = tlc.run(gen, cfg, self.scratch, simulate='file=%s/b,num=%d' % (out, num), depth=depth, seed=self.seed,
+                    workers=1, timeout=timeout, module_dir=self.specdir)
+        rec = {'module': gen, 'config': name, 'mode': 'simulate num=%d depth=%d seed=%d' % (num, depth, self.seed),
+               'constants': {k: str(v) for k, v in consts.items()}, 'invariants': list(invariants), 'properties': list(properties),
+               'states_generated': r.states, 'wall_s': round(r.wall, 1), 'result': 'ok' if r.ok else r.violated}
+        self.tlc_runs.append(rec)
+        if not r.ok:
+            raise MachineryError('intended model %s/%s does not satisfy its own properties in simulation (%s) — '
+                                 'specification bug\n%s' % (module, name, r.violated, r.out[-4000:]))
+        self.transitions += r.states or 0
+        g = graphmod.Graph()
+        ids = {}
+        paths = []
+
+        def sid(st):
+            if st not in ids:
+                ids[st] = len(ids) + 1
+                g.states[ids[st]] = st
+                g.out[ids[st]] = []
+            return ids[st]
+        files = sorted(os.listdir(out), key=lambda n: [int(x) for x in n.split('_')[1:]])
+        for fn in files:
+            beh = graphmod.load_sim_file(os.path.join(out, fn))
+            if not beh:
+                continue
+            cur = sid(beh[0][1])
+            if cur not in g.init:
+                g.init.append(cur)
+            start, labels, targets = cur, [], []
+            for _lab, st in beh[1:]:
+                a = st['act']
+                lab = (a[0], tuple(a[1:]))
+                d = sid(st)
+                if (lab[0], lab[1], d) not in g.out[cur]:
+                    g.out[cur].append((lab[0], lab[1], d))
+                labels.append(lab)
+                targets.append(d)
+                cur = d
+            paths.append((start, labels, targets))
+        shutil.rmtree(out, ignore_errors=True)
+        g._bfs()
+        self.states += len(g.states)
+        rec['distinct_states_in_behaviours'] = len(g.states)
+        rec['behaviours'] = len(paths)
+        return g, paths
+
     # -- replay results --------------------------------------------------------------------------
     def absorb(self, stats, what, graph=None):
         self.traces += stats.paths
